@@ -4,11 +4,14 @@
 package topology
 
 import (
+	"fmt"
+
 	kaiv1alpha1 "github.com/NVIDIA/KAI-scheduler/pkg/apis/kai/v1alpha1"
 
 	"github.com/NVIDIA/KAI-scheduler/pkg/scheduler/api/node_info"
 	"github.com/NVIDIA/KAI-scheduler/pkg/scheduler/api/podgroup_info"
 	"github.com/NVIDIA/KAI-scheduler/pkg/scheduler/framework"
+	"github.com/NVIDIA/KAI-scheduler/pkg/scheduler/log"
 )
 
 const (
@@ -56,6 +59,12 @@ func (t *topologyPlugin) preJobAllocationFn(_ *podgroup_info.PodGroupInfo) {
 
 func (t *topologyPlugin) initializeTopologyTree(topologies []*kaiv1alpha1.Topology, nodes map[string]*node_info.NodeInfo) {
 	for _, topology := range topologies {
+		if err := validateTopologyLevels(topology); err != nil {
+			// A tree built from such levels is not a tree (a domain can become its own ancestor, and walking it
+			// never ends). Workloads that name this topology are treated like workloads naming a missing one.
+			log.InfraLogger.Errorf("Ignoring topology <%s>: %v", topology.Name, err)
+			continue
+		}
 		topologyTree := &Info{
 			Name: topology.Name,
 			DomainsByLevel: map[DomainLevel]LevelDomainInfos{
@@ -72,6 +81,24 @@ func (t *topologyPlugin) initializeTopologyTree(topologies []*kaiv1alpha1.Topolo
 
 		t.TopologyTrees[topology.Name] = topologyTree
 	}
+}
+
+// validateTopologyLevels rejects level lists the domain tree cannot represent: an empty node label, the same label on
+// two levels, or a label equal to the name the plugin reserves for the root of every tree.
+func validateTopologyLevels(topology *kaiv1alpha1.Topology) error {
+	seen := map[string]bool{}
+	for _, level := range topology.Spec.Levels {
+		switch {
+		case level.NodeLabel == "":
+			return fmt.Errorf("a level has an empty node label")
+		case level.NodeLabel == rootLevel:
+			return fmt.Errorf("node label <%s> is reserved for the root of the topology tree", rootLevel)
+		case seen[level.NodeLabel]:
+			return fmt.Errorf("node label <%s> is used by more than one level", level.NodeLabel)
+		}
+		seen[level.NodeLabel] = true
+	}
+	return nil
 }
 
 func (*topologyPlugin) addNodeDataToTopology(topologyTree *Info, topology *kaiv1alpha1.Topology, nodeInfo *node_info.NodeInfo) {
